@@ -196,6 +196,8 @@ package types
 //@   ensures  ok == ((voteSet.votes[valIndex] != nil && keyOf(voteSet.votes[valIndex].BlockID) == blockKey) || (has(voteSet.votesByBlock, blockKey) && voteSet.votesByBlock[blockKey].votes[valIndex] != nil))
 //@   ensures  ok ==> vote != nil
 //@   ensures  !ok ==> vote == nil
+// (the same fact in terms of block ids, so that callers need not reason about the encoding of keys)
+//@   ensures  [no-vote-of-this-validator-for-an-id-with-this-key] !ok ==> forall(b, BlockID, trigger(keyOf(b)), keyOf(b) == blockKey ==> voteSet.votes[valIndex] == nil || !blockIDEq(voteSet.votes[valIndex].BlockID, b))
 
 // go-wire length-prefixes byte slices and encodes a parts header as (varint, length-prefixed bytes): the encoding of a byte slice
 // followed by that of a parts header determines both (assumption about the reflective encoder, which is outside the subset)
